@@ -471,3 +471,85 @@ def ft2(ctx):
                   'the successor of a WAL file is computed from its number (%s) instead of looked up in the ordered set of tracked files: gaps in the numbering (allowed) would stop recovery early' % (sorted(set(ar)) or 'no ordered lookup'))
     if n == 0:
         ctx.missing('successor', 'no FileTracker fn(&self, &FileNumber) -> Option<FileNumber> found')
+
+
+@rule('FH2', ['C01', 'C06'], floor=1, template='provenance')
+def fh2(ctx):
+    """The file a new record is attributed to is the writer's current file as read BEFORE the record is written
+    (a clone of the `&FileNumber` accessor result): never a later file (the successor in the tracker, or the
+    current file read after the write) -- the file holding the first bytes of the record must stay pinned."""
+    FN = 'rolling::file_number::FileNumber'
+    n = 0
+    for b in api_mut(ctx):
+        if b.generic_dup():
+            continue
+        fl = flow_of(b)
+        from vocab import log_sites
+        logs = [cs.point for cs in log_sites(ctx, b)]
+        for cs in b.calls:
+            if cs.node is None or not ctx.E.call_may(cs, 'MEM'):
+                continue
+            fargs = [a for a in cs.args if op_local(a) is not None and b.local_ty(op_local(a)) == '&' + FN]
+            if not fargs:
+                continue
+            n += 1
+            back = set()
+            for a in fargs:
+                back |= fl.backward(set(fl.op_nodes(a)))
+            bad = []
+            okc = 0
+            for c2 in b.calls:
+                dl = c2.dest_local()
+                if dl is None or FN not in b.local_ty(dl) or not any(x in back for x in fl.call_result_nodes(c2)):
+                    continue
+                ty = b.local_ty(dl)
+                if c2.name == '<%s as std::clone::Clone>::clone' % FN:
+                    if logs and not all(b.dominates(c2.point, lp) or lp not in b.reach([b.entry]) for lp in logs if cs.point in b.reach_after(lp)):
+                        bad.append('the handle is cloned at %s, after the WAL write' % b.loc(c2.point))
+                    okc += 1
+                elif ty == '&' + FN:
+                    continue        # accessor of the current file
+                else:
+                    bad.append('%s (returning %s) feeds the handle' % (c2.path.split('::')[-1], ty.split('::')[-1]))
+            ctx.check(okc > 0 and not bad, '%s:%s' % (b.path, cs.path.split('::')[-1]), where(b, cs.point), 'records are attributed to a clone of the current file taken before the write',
+                      'a new record can be attributed to a file other than the one that was current before it was written (%s): the file holding its first bytes could be reclaimed while the record is retained' % '; '.join(bad or ['no clone of the current file']))
+    if n == 0:
+        ctx.missing('append', 'no in-memory append taking a &FileNumber found in the mutating API')
+
+
+@rule('RP5', ['C09', 'C01', 'C04'], floor=1, template='must-pass-through')
+def rp5(ctx):
+    """Replay of a position record ALWAYS re-aligns the queue (ack_position decides itself whether the queue can be
+    kept): the call is not skipped for a queue that is already known -- that is exactly the case in which a lost
+    DeleteQueue / Truncate entry is absorbed."""
+    from rules_open import replay_sites
+    from rules_log import replay_arms
+    from rules_misc import expand_arm_sites
+    rs = replay_sites(ctx)
+    if not rs:
+        ctx.missing('replay', 'no replay loop')
+        return
+    b, cs0 = rs[0]
+    arms = replay_arms(ctx, b, cs0)
+    if 'RecordPosition' not in arms:
+        ctx.missing('arm', 'no RecordPosition replay arm')
+        return
+    (edge, region) = arms['RecordPosition']
+    n = 0
+    for (host, cs, _res) in expand_arm_sites(ctx, b, region):
+        if cs.node is None:
+            continue
+        cb = ctx.f.bodies[cs.node]
+        if cb.path.startswith('mem::queues::MemQueues::') and cb.arg_count == 3 and cb.local_ty(3) == 'u64' and cb.ret_ty == '()':
+            n += 1
+            if host is b:
+                # from the arm's entry the replay loop cannot come round again (or leave successfully) without the call
+                r_ = b.reach([edge[1]], avoid=[cs.point])
+                skipped = cs0.point in r_ or any(e['point'] in r_ and e['kind'] in ('ok',) for e in b.exits())
+            else:
+                exits = [e['point'] for e in host.ok_exits()] or host.return_points()
+                skipped = any(e in host.reach([host.entry], avoid=[cs.point]) for e in exits)
+            ctx.check(not skipped, 'position-arm:always-realigns', where(host, cs.point), 'every path through the RecordPosition arm calls the re-alignment',
+                      'replaying a position record can skip the re-alignment of the queue (e.g. when the queue is already known): a stale queue left by a lost DeleteQueue / Truncate entry would survive and make later entries fail')
+    if n == 0:
+        ctx.missing('realign', 'no re-alignment call in the RecordPosition replay arm')
